@@ -252,7 +252,14 @@ type tx struct {
 
 func (t *tx) Commit() error {
 	o := t.cn.c.op(t.cn, "commit", "COMMIT")
-	err := t.cn.run(o, func() error { return t.raw.Commit() })
+	ran := false
+	err := t.cn.run(o, func() error { ran = true; return t.raw.Commit() })
+	if err != nil && !ran {
+		// an injected COMMIT failure: go-sqlite3 rolls the transaction back itself when COMMIT fails (SQLITE_BUSY),
+		// because database/sql considers the transaction finished either way; do what the driver would have done
+		t.raw.Rollback()
+		t.cn.inTx = false
+	}
 	if err == nil {
 		t.cn.inTx = false
 	}
